@@ -235,6 +235,24 @@ Definition k_rename (st : state) (from to : str) : state * option errno :=
       end
   end.
 
+(* ftruncate(fd, 0) *)
+Definition k_ftruncate0 (st : state) (f : fd) : state :=
+  match get (root st) (fd_path f) with
+  | Some (NFile _) => set_root st (upd (root st) (fd_path f) (Some (NFile [])))
+  | _ => st
+  end.
+
+(* fstat on both descriptors gives the same st_dev / st_ino: they name the same file (no hard links) *)
+Definition same_file (a b : fd) : bool := cpath_eqb (fd_path a) (fd_path b).
+
+(* lstat(): does not follow a link in last position; only success / failure is looked at *)
+Definition k_lstat (st : state) (path : str) : option snode :=
+  match resolve st false path with
+  | WAt _ _ (Some k) => Some k
+  | WDir _ _ => Some SDir
+  | _ => None
+  end.
+
 (* stat(): follows links *)
 Definition k_stat (st : state) (path : str) : option snode :=
   match resolve st true path with
@@ -368,21 +386,28 @@ Definition f_symlink (st : state) (target path : str) : state * bool :=
   let (st', e) := k_symlink st target path in (st', is_none e).
 
 (* File::rename(from, to, failIfExists); repaired (fixes/C19/05): the placeholder is removed again
-   when the rename fails *)
+   when the rename fails; (fixes/C19/08): a source that does not exist is refused before the
+   placeholder is created (otherwise rename(x, x, true) of a missing x created x and said true) *)
 Definition f_rename (st : state) (from to : str) (failIfExists : bool) : state * bool :=
   if failIfExists then
-    match k_open st to true false true true false with     (* O_CREAT | O_EXCL (access mode 0) *)
-    | (st1, inr _) => (st1, false)
-    | (st1, inl _) =>
-        match k_rename st1 from to with
-        | (st2, None) => (st2, true)
-        | (st2, Some _) => (fst (k_unlink st2 to), false)
+    match k_lstat st from with
+    | None => (st, false)
+    | Some _ =>
+        match k_open st to true false true true false with     (* O_CREAT | O_EXCL (access mode 0) *)
+        | (st1, inr _) => (st1, false)
+        | (st1, inl _) =>
+            match k_rename st1 from to with
+            | (st2, None) => (st2, true)
+            | (st2, Some _) => (fst (k_unlink st2 to), false)
+            end
         end
     end
   else let (st', e) := k_rename st from to in (st', is_none e).
 
 (* File::copy(src, destination, failIfExists); repaired (fixes/C19/06): a source that is not a
-   regular file is refused before the destination is touched *)
+   regular file is refused before the destination is touched; (fixes/C19/07): the destination is
+   opened without O_TRUNC, refused when it is the source itself (same inode), and only then
+   truncated (otherwise copy(f, f, false) emptied f) *)
 Definition f_copy (st : state) (src dst : str) (failIfExists : bool) : state * bool :=
   match k_open st src true false false false false with
   | (st1, inr _) => (st1, false)
@@ -395,13 +420,15 @@ Definition f_copy (st : state) (src dst : str) (failIfExists : bool) : state * b
           let (fs2, z) := k_lseek st1 fs1 0 0 in
           if z <? 0 then (st1, false)
           else
-            match k_open st1 dst false true true failIfExists true with
+            match k_open st1 dst false true true failIfExists false with
             | (st2, inr _) => (st2, false)
             | (st2, inl fdst) =>
-                match k_sendfile st2 fdst fs2 (Z.to_nat size) with
-                | (st3, inl n) => (st3, Z.of_nat n =? size)
-                | (st3, inr _) => (st3, false)
-                end
+                if same_file fs2 fdst then (st2, false)                  (* fstat: same st_dev, st_ino -> EINVAL *)
+                else
+                  match k_sendfile (k_ftruncate0 st2 fdst) fdst fs2 (Z.to_nat size) with
+                  | (st3, inl n) => (st3, Z.of_nat n =? size)
+                  | (st3, inr _) => (st3, false)
+                  end
             end
   end.
 
